@@ -394,6 +394,7 @@ pub fn shape_of(obs: &Observations) -> u64 {
             Ok(ResolvedRecord::NonAuthoritative { rrs, soa_rr }) => {
                 format!("N{}{}", rrs.len(), soa_rr.is_some())
             }
+            Ok(ResolvedRecord::Referral { ns_rrs }) => format!("R{}", ns_rrs.len()),
             Err(e) => format!("E{e}"),
         };
         h = simseam::hash_bytes(h, format!("{} {class}", q.question).as_bytes());
